@@ -82,14 +82,17 @@ SPEC = dict(
             _run("level-stamp", "--space", "level", "--tier", "quick"),
             _run("truncation", "--space", "trunc", "--tier", "quick", "--hi", 12, "--modes", "1,2", "--rich", 4),
             _run("block-boundary-ladder", "--space", "ladder", "--tier", "quick", "--hi", 24, "--modes", "1,2", "--rich", 4, "--sax-only", 1),
+            _run("long-value-ends-on-block-boundary", "--space", "ladder", "--tier", "quick", "--modes", "2", "--rich", 8, "--only-rich", 3, "--align-window", 40, "--sax-only", 1),
             _run("locked-pool", "--space", "locked", "--tier", "quick"),
         ],
         thorough=[
             _run("grammar-families", "--space", "grammars", "--family", "all", "--tier", "thorough"),
             _run("level-stamp", "--space", "level", "--tier", "thorough"),
             _run("truncation", "--space", "trunc", "--tier", "thorough", "--hi", 200, "--modes", "1,2", "--rich", 8),
-            _run("block-boundary-ladder-uri-value", "--space", "ladder", "--tier", "thorough", "--hi", 4200, "--step", 7, "--modes", "1,2", "--rich", 8, "--sax-only", 1),
+            _run("block-boundary-ladder-uri-value", "--space", "ladder", "--tier", "thorough", "--hi", 4060, "--step", 7, "--modes", "1,2", "--rich", 8, "--sax-only", 1),
             _run("block-boundary-ladder-list-annotation", "--space", "ladder", "--tier", "thorough", "--hi", 150, "--modes", "3,4", "--rich", 8, "--sax-only", 1),
+            _run("long-value-sweep-dtd", "--space", "ladder", "--tier", "thorough", "--lo", 4090, "--hi", 8300, "--modes", "2", "--rich", 8, "--only-rich", 3, "--sax-only", 1),
+            _run("long-value-sweep-schema", "--space", "ladder", "--tier", "thorough", "--lo", 4090, "--hi", 8300, "--modes", "2", "--rich", 8, "--only-rich", 5, "--sax-only", 1),
             _run("locked-pool", "--space", "locked", "--tier", "thorough"),
         ],
     ),
